@@ -30,7 +30,7 @@ func init() {
 			"error data is restricted to self-evaluating values (the handler call re-evaluates data cells; that re-evaluation is not part of the statement)",
 			"message text of evaluator-raised errors is not predicted (opaque); identity of the rethrown error is judged by pointer equality with what the handler saw",
 		},
-		Cases:       func(tier string) int { return pick(tier, 30000, 1000000) },
+		Cases:       func(tier string) int { return c06MainCases(tier) + c06LibCases(tier) },
 		Run:         c06Run,
 		Driver:      c06Driver,
 		MinDistinct: func(tier string) int { return pick(tier, 400, 1200) },
@@ -395,7 +395,14 @@ type c06Result struct {
 	rr       *rt.R
 }
 
+func c06MainCases(tier string) int { return pick(tier, 30000, 1000000) }
+
 func c06Run(w *fw.W, idx int) {
+	if nm := c06MainCases(w.Tier); idx >= nm {
+		// the cases after the generated trees: errors raised by the library itself (c06_libraise.go)
+		c06LibRaise(w, idx-nm)
+		return
+	}
 	c := c06Build(w, idx, nil)
 	res := c06Judge(w, c)
 	w.Eval(1)
